@@ -7,6 +7,7 @@ package harness
 
 import (
 	"bufio"
+	"bytes"
 	"encoding/json"
 	"math"
 	"math/big"
@@ -55,6 +56,7 @@ var zeroFloat = &FloatJ{Cls: "fin", N: []int64{0}, E: 0}
 
 type numWriter struct {
 	f       *os.File
+	mem     *bytes.Buffer
 	w       *bufio.Writer
 	enc     *json.Encoder
 	Events  int
@@ -116,7 +118,34 @@ func (n *numWriter) start(e *NEvent) {
 	n.emit(e)
 }
 
-func (n *numWriter) close() { n.w.Flush(); n.f.Close() }
+func (n *numWriter) close() {
+	n.w.Flush()
+	if n.f != nil {
+		n.f.Close()
+	}
+}
+
+// newMemWriter records into memory (one per instantiation when instantiations run in parallel).
+func newMemWriter(tidBase int) *numWriter {
+	var b bytes.Buffer
+	w := bufio.NewWriterSize(&b, 1<<16)
+	return &numWriter{mem: &b, w: w, enc: json.NewEncoder(w), tid: tidBase, Ops: map[string]int{}, Fns: map[string]int{}, maxSegs: 300000}
+}
+
+// absorb appends what a memory writer recorded.
+func (n *numWriter) absorb(m *numWriter) {
+	m.w.Flush()
+	n.w.Write(m.mem.Bytes())
+	n.Events += m.Events
+	n.Scans += m.Scans
+	n.Capped += m.Capped
+	for k, v := range m.Ops {
+		n.Ops[k] += v
+	}
+	for k, v := range m.Fns {
+		n.Fns[k] += v
+	}
+}
 
 var limbMask = big.NewInt(32767)
 
